@@ -705,7 +705,10 @@ class Flattener:
         if cat != "repo" or len({t[1].qn for t in tg}) != 1:
             return None
         callee = tg[0][1]
+        if getattr(call, "_no_inline", False):
+            return None
         if callee.qn in stack or callee.qn == self.f.qn:
+            call._no_inline = True      # recursion: stays a call, also when the flattened body is flattened again
             return None
         if any(isinstance(n, (ast.Yield, ast.YieldFrom)) for n in ast.walk(callee.node)):
             return None
@@ -933,6 +936,8 @@ class Flattener:
         if isinstance(e, ast.Call):
             probe = self._resolve_ctx_call(ctx, e, rename)
             tgt = self._target(ctx, probe, stack)
+            if getattr(probe, "_no_inline", False):
+                e._no_inline = True
             if tgt is not None:
                 callee, _recv = tgt
                 recv = e.func.value if isinstance(e.func, ast.Attribute) else None
@@ -956,7 +961,9 @@ class Flattener:
         try:
             for _ in range(3):
                 # helper parameters bound to function values are applied; helpers that become visible that way are analysed in place too
-                if not (self.inlined and apply_bound_function_values(self.repo, self.f, fn)):
+                a = bool(self.inlined) and apply_bound_function_values(self.repo, self.f, fn)
+                b = devirtualise_calls(self.repo, self.f, fn)
+                if not (a or b):
                     break
                 fn.body = self._flatten_block(normalise_body(list(fn.body), self.repo, self.f), self.f, (self.f.qn,), 1)
         except Exception:
@@ -1026,6 +1033,169 @@ def apply_bound_function_values(repo: Repo, f: FuncInfo, fn: ast.FunctionDef) ->
 
     Apply().visit(fn)
     return changed[0]
+
+
+def devirtualise_calls(repo: Repo, f: FuncInfo, fn: ast.FunctionDef) -> bool:
+    """calls through a local name that holds one of several function values (`v = self._a` in one branch, `v = self._b` in another, `v = None`
+    otherwise, possibly handed on through copies; `v(args)` later): every such definition also records a tag (`v__tag = k`, copies copy
+    the tag) and the statement with the call is split by tag -- `if v__tag == 1: .. self._a(args) elif v__tag == 2: .. self._b(args)
+    else: .. v(args)`.  An exact transformation (fresh integer variables only); the callees become visible to inlining and the guard
+    analyses relate the call to the branch that chose it.  True when something changed."""
+    simple_defs: Dict[str, List[ast.stmt]] = {}
+    opaque: Set[str] = set()
+    for n in ast.walk(fn):
+        if isinstance(n, (ast.FunctionDef, ast.AsyncFunctionDef, ast.Lambda)) and n is not fn:
+            for x in ast.walk(n):
+                if isinstance(x, ast.Name):
+                    opaque.add(x.id)
+        if isinstance(n, ast.Assign) and len(n.targets) == 1 and isinstance(n.targets[0], ast.Name):
+            simple_defs.setdefault(n.targets[0].id, []).append(n)
+        elif isinstance(n, ast.AnnAssign) and isinstance(n.target, ast.Name) and n.value is not None:
+            simple_defs.setdefault(n.target.id, []).append(n)
+    stores: Dict[str, int] = {}
+    for n in ast.walk(fn):
+        if isinstance(n, ast.Name) and not isinstance(n.ctx, ast.Load):
+            stores[n.id] = stores.get(n.id, 0) + 1
+    params = {a.arg for x in ast.walk(fn) if isinstance(x, ast.arguments)
+              for a in x.posonlyargs + x.args + x.kwonlyargs + ([x.vararg] if x.vararg else []) + ([x.kwarg] if x.kwarg else [])}
+    local_names = set(stores) | params
+    for nm, c in stores.items():
+        if c != len(simple_defs.get(nm, [])) or nm in params:
+            opaque.add(nm)
+    fv = FunctionValues(repo, f, local_names)
+    self_name = f.self_name if f.is_method else None
+
+    def function_value(v: ast.AST) -> bool:
+        if fv.is_value(v):
+            return True
+        if isinstance(v, ast.Name):
+            return v.id not in local_names and v.id not in ("None", "True", "False")
+        root = v
+        while isinstance(root, ast.Attribute):
+            root = root.value
+        return isinstance(v, ast.Attribute) and isinstance(root, ast.Name) and (root.id not in local_names or root.id == self_name)
+
+    def value_of(st):
+        return st.value
+
+    # names all of whose definitions are function values / None / copies of such names
+    carrying: Set[str] = {nm for nm in simple_defs if nm not in opaque}
+    changed = True
+    while changed:
+        changed = False
+        for nm in list(carrying):
+            for st in simple_defs[nm]:
+                v = value_of(st)
+                ok = function_value(v) or (isinstance(v, ast.Constant) and v.value is None) or (isinstance(v, ast.Name) and v.id in carrying)
+                if not ok:
+                    carrying.discard(nm)
+                    changed = True
+                    break
+
+    def sources(nm: str, seen=None) -> List[ast.stmt]:
+        seen = set() if seen is None else seen
+        if nm in seen:
+            return []
+        seen.add(nm)
+        out = []
+        for st in simple_defs.get(nm, []):
+            v = value_of(st)
+            if isinstance(v, ast.Name) and v.id in carrying:
+                out += sources(v.id, seen)
+            elif function_value(v):
+                out.append(st)
+        return out
+
+    called = {c.func.id for c in ast.walk(fn) if isinstance(c, ast.Call) and isinstance(c.func, ast.Name) and c.func.id in carrying
+              and not getattr(c, "_devirt", False) and f"{c.func.id}__tag" not in stores}
+    called = {nm for nm in called if len(sources(nm)) >= 1 and (len(simple_defs[nm]) > 1 or len(sources(nm)) > 1 or
+                                                              any(isinstance(value_of(st), ast.Name) and value_of(st).id in carrying for st in simple_defs[nm]))}
+    called = {nm for nm in called if len({id(x) for x in sources(nm)}) + sum(1 for st in simple_defs[nm] if isinstance(value_of(st), ast.Constant)) > 1
+              or len(sources(nm)) > 1 or any(isinstance(value_of(st), ast.Name) for st in simple_defs[nm])}
+    if not called:
+        return False
+    # closure of the names whose tags are needed
+    need: Set[str] = set()
+
+    def close(nm):
+        if nm in need:
+            return
+        need.add(nm)
+        for st in simple_defs.get(nm, []):
+            v = value_of(st)
+            if isinstance(v, ast.Name) and v.id in carrying:
+                close(v.id)
+    for nm in called:
+        close(nm)
+    tag_of: Dict[int, int] = {}
+    for nm in sorted(need):
+        for st in simple_defs[nm]:
+            if function_value(value_of(st)):
+                tag_of[id(st)] = len(tag_of) + 1
+    tagname = lambda nm: f"{nm}__tag"
+
+    def tag_stmt(nm: str, st: ast.stmt) -> ast.stmt:
+        v = value_of(st)
+        if id(st) in tag_of:
+            val: ast.expr = ast.Constant(value=tag_of[id(st)])
+        elif isinstance(v, ast.Name) and v.id in need:
+            val = ast.Name(id=tagname(v.id), ctx=ast.Load())
+        else:
+            val = ast.Constant(value=0)
+        new = ast.Assign(targets=[ast.Name(id=tagname(nm), ctx=ast.Store())], value=val, lineno=st.lineno)
+        ast.copy_location(new, st)
+        return ast.fix_missing_locations(new)
+
+    def_owner = {id(st): nm for nm in need for st in simple_defs[nm]}
+    did = [False]
+
+    def split(st: ast.stmt) -> List[ast.stmt]:
+        if not isinstance(st, (ast.Assign, ast.AnnAssign, ast.AugAssign, ast.Expr, ast.Return)):
+            return [st]
+        calls = [c for c in ast.walk(st) if isinstance(c, ast.Call) and isinstance(c.func, ast.Name) and c.func.id in called and not getattr(c, "_devirt", False)]
+        if not calls or any(isinstance(x, (ast.Lambda, ast.ListComp, ast.SetComp, ast.DictComp, ast.GeneratorExp)) and any(c in list(ast.walk(x)) for c in calls)
+                            for x in ast.walk(st)):
+            return [st]
+        nm = calls[0].func.id
+        srcs = sources(nm)
+        for c in calls:
+            if c.func.id == nm:
+                c._devirt = True        # the fallback keeps the call as written
+        chain: List[ast.stmt] = [st]
+        for src in reversed(srcs):
+            variant = copy.deepcopy(st)
+            for c in ast.walk(variant):
+                if isinstance(c, ast.Call) and isinstance(c.func, ast.Name) and c.func.id == nm:
+                    c._devirt = False
+                    c.func = ast.copy_location(copy.deepcopy(value_of(src)), c.func)
+                    for x in ast.walk(c.func):
+                        ast.copy_location(x, c)
+            test = ast.Compare(left=ast.Name(id=tagname(nm), ctx=ast.Load()), ops=[ast.Eq()], comparators=[ast.Constant(value=tag_of[id(src)])])
+            node = ast.If(test=test, body=[variant], orelse=chain)
+            ast.copy_location(node, st)
+            ast.fix_missing_locations(node)
+            chain = [node]
+        did[0] = True
+        return chain
+
+    def rewrite(stmts: List[ast.stmt]) -> List[ast.stmt]:
+        out: List[ast.stmt] = []
+        for st in stmts:
+            for fld in ("body", "orelse", "finalbody"):
+                sub = getattr(st, fld, None)
+                if isinstance(sub, list) and sub and isinstance(sub[0], ast.stmt) and not isinstance(st, (ast.FunctionDef, ast.AsyncFunctionDef, ast.ClassDef)):
+                    setattr(st, fld, rewrite(sub))
+            for h in getattr(st, "handlers", []) or []:
+                h.body = rewrite(h.body)
+            if id(st) in def_owner:
+                out.append(st)
+                out.append(tag_stmt(def_owner[id(st)], st))
+            else:
+                out.extend(split(st))
+        return out
+
+    fn.body = rewrite(fn.body)
+    return did[0]
 
 
 FoldedConstant = type("Constant", (ast.Constant,), {"const_name": "", "__doc__": "a module-level literal constant put in place of its name"})
